@@ -76,6 +76,11 @@ ALLOWED = {
     "sub": {"ConversionNotFound"}, "eq": set(),
     "lt": {"TypeError"}, "le": {"TypeError"}, "gt": {"TypeError"}, "ge": {"TypeError"},
 }
+# the same comparisons with the other operand a Level (20 dB re 1 V: it denotes 100 V, or 10 V for a
+# root-power reference), in both operand orders
+LEVEL_OPS = ("eq_lv", "lt_lv", "le_lv", "gt_lv", "ge_lv", "lv_eq", "lv_lt", "lv_ge")
+BASE_OP = {o: o.replace("_lv", "").replace("lv_", "") for o in LEVEL_OPS}
+ALLOWED.update({o: ALLOWED[b] for o, b in BASE_OP.items()})
 X, Y = z3.Real("x"), z3.Real("y")
 
 
@@ -87,6 +92,13 @@ def run_op(op: str, u: Any, v: Any) -> Dict[str, Any]:
         a, b = Quantity(mk("float", X), u), Quantity(mk("float", Y), v)
         if op == "in_unit":
             return a.in_unit(v)
+        if op in BASE_OP:
+            import measured
+            import operator
+
+            lv = measured.Level(20.0, measured.Decibel[1 * v])
+            f = getattr(operator, BASE_OP[op])
+            return f(a, lv) if op.endswith("_lv") else f(lv, a)
         return {"add": lambda: a + b, "sub": lambda: a - b, "eq": lambda: a == b,
                 "lt": lambda: a < b, "le": lambda: a <= b, "gt": lambda: a > b,
                 "ge": lambda: a >= b}[op]()
@@ -193,10 +205,12 @@ def replay_body(op: str, cu: str, cv: str, prelude: str, xv: float, yv: float,
                 optimized: bool = False) -> str:
     expr = {"in_unit": "(x * U).in_unit(V)", "add": "(x * U) + (y * V)", "sub": "(x * U) - (y * V)",
             "eq": "(x * U) == (y * V)", "lt": "(x * U) < (y * V)", "le": "(x * U) <= (y * V)",
-            "gt": "(x * U) > (y * V)", "ge": "(x * U) >= (y * V)"}[op]
+            "gt": "(x * U) > (y * V)", "ge": "(x * U) >= (y * V)",
+            **{o: (f"operator.{b}(x * U, measured.Level(20.0, measured.Decibel[1 * V]))" if o.endswith("_lv") else
+                   f"operator.{b}(measured.Level(20.0, measured.Decibel[1 * V]), x * U)") for o, b in BASE_OP.items()}}[op]
     allowed = sorted(ALLOWED[op])
     body = families.REPLAY_IMPORTS + prelude + f"""
-import subprocess
+import subprocess, operator
 U, V = {cu}, {cv}
 x, y = {xv!r}, {yv!r}
 def outcome():
@@ -259,7 +273,7 @@ def judge(rep: report.Report, mode: str, normal: Dict[str, Any], opt: Dict[str, 
             for which, pp in (("normal", paths), ("-O", paths2)):
                 if op in ("in_unit", "add", "sub"):
                     wrong = [p for p in pp if p[0] == "num"]
-                elif op == "eq":
+                elif BASE_OP.get(op, op) == "eq":
                     wrong = [p for p in pp if p[0] == "bool" and P.check(parse(p[1]), parse(p[2]))[0] != "unsat"]
                 else:
                     wrong = [p for p in pp if p[0] == "bool"]
@@ -268,7 +282,7 @@ def judge(rep: report.Report, mode: str, normal: Dict[str, Any], opt: Dict[str, 
                     m = P.shaped_model([parse(wrong[0][1])], [X, Y]) or {"x": Fraction(1), "y": Fraction(1)}
                     body = replay_body(op, cu, cv, prelude, float(m["x"]), float(m["y"])).replace(
                         "if o[0] == 'exc' and o[1] not in",
-                        "if o[0] == 'ok' and not (" + repr(op) + " == 'eq' and o[1] == 'False'):\n"
+                        "if o[0] == 'ok' and not (" + repr(BASE_OP.get(op, op)) + " == 'eq' and o[1] == 'False'):\n"
                         "    print('REPRODUCED: an impossible conversion yields a value:', o); sys.exit(1)\n"
                         "if o[0] == 'exc' and o[1] not in")
                     rep.violation(f"C07:impossible-yields-a-value:{lab}:{op}",
@@ -350,6 +364,8 @@ def main(tier: str, selftest_cases: int = 0) -> int:
     rep = report.Report(PID, tier, "other")
     tasks = families.shuffled(tasks_for(tier), rep.seed)
     utasks = [("unconv", ch, OPS) for ch in par.chunks(UNCONV_PAIRS, 6)]
+    lv_pairs = [p for p in UNCONV_PAIRS if not any(t in p[0] + p[1] for t in ("Big", "Tiny", "Edge"))]
+    utasks += [("unconv", ch, LEVEL_OPS) for ch in par.chunks(lv_pairs[::2] if tier == "quick" else lv_pairs, 6)]
     # one fresh interpreter per task in BOTH modes: the planner's outcome can depend on the
     # order in which a unit's factors were first multiplied together in the process (a C08
     # finding), so the two modes must see identical histories to be comparable
